@@ -152,10 +152,18 @@ impl Options {
     /// depending on the radix.
     #[inline(always)]
     pub const fn buffer_size_const<T: FormattedSize, const FORMAT: u128>(&self) -> usize {
-        if (NumberFormat::<FORMAT> {}.radix()) == 10 {
+        let format = NumberFormat::<FORMAT> {};
+        let size = if format.radix() == 10 {
             T::FORMATTED_SIZE_DECIMAL
         } else {
             T::FORMATTED_SIZE
+        };
+        // The formatted sizes only include a sign for signed types, so a
+        // required `+` sign needs an additional byte.
+        if cfg!(feature = "format") && format.required_mantissa_sign() {
+            size + 1
+        } else {
+            size
         }
     }
 
